@@ -31,10 +31,11 @@ type res03 struct {
 	pushed   bool
 	maxDepth int
 	reopens  int
+	forked   bool
 }
 
 func (r *res03) term(useLog bool) string {
-	ops := "(@nil sop)"
+	ops := "(@nil fop)"
 	if len(r.coqOps) > 0 {
 		ops = coqout.List(r.coqOps)
 	}
@@ -62,12 +63,47 @@ func optCoq(v []byte) string {
 	return "(RVal (Some " + coqBytes(v) + "))"
 }
 
+// delta is the reference of one overlay level: what it wrote and what it removed.
+type delta struct {
+	writes map[string][]byte
+	tomb   map[string]bool
+}
+
+func newDelta() *delta { return &delta{writes: map[string][]byte{}, tomb: map[string]bool{}} }
+
+func (d *delta) copy() *delta {
+	n := newDelta()
+	for k, v := range d.writes {
+		n.writes[k] = v
+	}
+	for k := range d.tomb {
+		n.tomb[k] = true
+	}
+	return n
+}
+
+func (d *delta) ins(k string, v []byte) { d.writes[k] = v; delete(d.tomb, k) }
+func (d *delta) rem(k string)           { delete(d.writes, k); d.tomb[k] = true }
+
+// over returns the view of this level over the map below (a new map).
+func (d *delta) over(below map[string][]byte) map[string][]byte {
+	m := copyMap(below)
+	for k := range d.tomb {
+		delete(m, k)
+	}
+	for k, v := range d.writes {
+		m[k] = v
+	}
+	return m
+}
+
 func runC03(c Case) (res *res03) {
 	res = &res03{stats: counts{}}
 	var e *env
 	var tree mkvs.Tree
 	var stack []mkvs.OverlayTree
-	at := -1 // index of the operation being performed
+	var sideB mkvs.OverlayTree // the live copy of the top overlay, nil when there is none
+	at := -1                   // index of the operation being performed
 	fail := func(kind, f string, a ...any) {
 		if res.viol == nil {
 			res.viol = &violation{kind: kind, what: fmt.Sprintf(f, a...)}
@@ -82,6 +118,9 @@ func runC03(c Case) (res *res03) {
 			res.sig.snapshot(tree)
 			debugStack()
 			res.panicked = true
+		}
+		if sideB != nil {
+			quietly(sideB.Close)
 		}
 		for i := len(stack) - 1; i >= 0; i-- {
 			quietly(stack[i].Close)
@@ -100,59 +139,160 @@ func runC03(c Case) (res *res03) {
 	// every call on the tree (ours and the overlays') goes through st, which scans after it
 	st := &scanTree{Tree: tree}
 	st.scan = func() { res.sig.scan(st.Tree) }
-	top := func() mkvs.KeyValueTree {
-		if len(stack) == 0 {
-			return st
-		}
-		return stack[len(stack)-1]
-	}
-	// reference: one full map per level (level 0 = the tree), plus what the last tree commit persisted
-	levels := []map[string][]byte{{}}
+
+	// reference: the full map of the tree level, one delta (writes, tombstones) per overlay
+	// level, a delta for the copy B over the same levels below the top, and what the last
+	// tree commit persisted
+	m0 := map[string][]byte{}
+	var deltas []*delta
+	var dB *delta
 	var committed map[string][]byte
-	cur := func() map[string][]byte { return levels[len(levels)-1] }
+	viewAt := func(n int) map[string][]byte { // the tree level with the lowest n overlays applied
+		m := m0
+		for _, d := range deltas[:n] {
+			m = d.over(m)
+		}
+		return m
+	}
+	view := func(b bool) map[string][]byte {
+		if b {
+			return dB.over(viewAt(len(deltas) - 1))
+		}
+		return viewAt(len(deltas))
+	}
+	treeIns := func(k string, v []byte) {
+		_, had := m0[k]
+		m0[k] = v
+		if !had {
+			res.sig.depth(m0)
+		}
+	}
+	// levelIns / levelRem write into level n (0 = the tree, n = overlay n-1)
+	levelIns := func(n int, k string, v []byte) {
+		if n == 0 {
+			treeIns(k, v)
+		} else {
+			deltas[n-1].ins(k, v)
+		}
+	}
+	levelRem := func(n int, k string) {
+		if n == 0 {
+			delete(m0, k)
+		} else {
+			deltas[n-1].rem(k)
+		}
+	}
+	sideIns := func(b bool, k string, v []byte) {
+		if b {
+			dB.ins(k, v)
+		} else {
+			levelIns(len(deltas), k, v)
+		}
+	}
+	sideRem := func(b bool, k string) {
+		if b {
+			dB.rem(k)
+		} else {
+			levelRem(len(deltas), k)
+		}
+	}
+	// commitSide: the delta of the top overlay (or of B) goes into the level below, and is cleared
+	commitSide := func(b bool) {
+		d := deltas[len(deltas)-1]
+		if b {
+			d = dB
+		}
+		below := len(deltas) - 1
+		for _, k := range sortedKeys(d.writes) {
+			levelIns(below, k, d.writes[k])
+		}
+		for k := range d.tomb {
+			levelRem(below, k)
+		}
+		d.writes, d.tomb = map[string][]byte{}, map[string]bool{}
+	}
+	lastWriter := map[string]bool{} // during a fork: key -> written/removed most recently on B?
+	crossRead := func(b bool, k []byte) {
+		if w, ok := lastWriter[string(k)]; ok && w != b {
+			res.stats.add("fork", "cross_reads")
+		}
+	}
 	version := uint64(0)
 	var lastRoot node.Root
 
 	for i, o := range c.Ops {
 		at = i
+		onB := strings.HasPrefix(o.K, "b_")
+		kind := strings.TrimPrefix(o.K, "b_")
+		// legality (generated histories are legal; shrinking may make an op illegal: skipped)
+		switch {
+		case onB && sideB == nil:
+			continue
+		case onB && !(kind == "ins" || kind == "rem" || kind == "remex" || kind == "get" || kind == "iter" || kind == "ovcommit"):
+			fail("error", "unexpected error: unknown operation %q", o.K)
+			return
+		case sideB != nil && (kind == "push" || kind == "ovdiscard" || kind == "ovcopy" || kind == "reopen" || kind == "fork"):
+			continue
+		}
+		var target mkvs.KeyValueTree = st
+		if onB {
+			target = sideB
+		} else if len(stack) > 0 {
+			target = stack[len(stack)-1]
+		}
+		where := fmt.Sprintf("at overlay depth %d", len(stack))
+		if onB {
+			where = fmt.Sprintf("on the copy B at overlay depth %d", len(stack))
+		} else if sideB != nil {
+			where = fmt.Sprintf("on A (a copy B is alive) at overlay depth %d", len(stack))
+		}
+		if sideB != nil && kind != "closeb" {
+			if onB {
+				res.stats.add("fork", "ops_on_B")
+			} else {
+				res.stats.add("fork", "ops_on_A_while_forked")
+			}
+		}
 		coqOp, coqRes := "", "RUnit"
-		switch o.K {
+		switch kind {
 		case "ins", "rem", "remex", "get", "iter":
 			if !o.Rewind {
 				res.stats.countKey(o.Key)
 			}
-			if o.K == "ins" {
+			if kind == "ins" {
 				res.stats.countVal(o.Val)
 			}
 		}
-		switch o.K {
+		switch kind {
 		case "ins":
-			if err = top().Insert(ctx, nn(o.Key), nn(o.Val)); err != nil {
+			if err = target.Insert(ctx, nn(o.Key), nn(o.Val)); err != nil {
 				fail("error", "unexpected error: op %d Insert: %v", i, err)
 				return
 			}
-			_, had := cur()[string(o.Key)]
-			cur()[string(o.Key)] = o.Val
-			if len(stack) == 0 && !had {
-				res.sig.depth(levels[0])
+			sideIns(onB, string(o.Key), o.Val)
+			if sideB != nil {
+				lastWriter[string(o.Key)] = onB
 			}
 			res.sig.scan(tree)
 			coqOp = "SIns " + coqBytes(o.Key) + " " + coqBytes(o.Val)
 		case "rem":
-			if err = top().Remove(ctx, nn(o.Key)); err != nil {
+			if err = target.Remove(ctx, nn(o.Key)); err != nil {
 				fail("error", "unexpected error: op %d Remove: %v", i, err)
 				return
 			}
-			delete(cur(), string(o.Key))
+			sideRem(onB, string(o.Key))
+			if sideB != nil {
+				lastWriter[string(o.Key)] = onB
+			}
 			res.sig.scan(tree)
 			coqOp = "SRem " + coqBytes(o.Key)
 		case "remex", "get":
 			var v []byte
-			if o.K == "get" {
-				v, err = top().Get(ctx, nn(o.Key))
+			if kind == "get" {
+				v, err = target.Get(ctx, nn(o.Key))
 				coqOp = "SGet " + coqBytes(o.Key)
 			} else {
-				v, err = top().RemoveExisting(ctx, nn(o.Key))
+				v, err = target.RemoveExisting(ctx, nn(o.Key))
 				coqOp = "SRemEx " + coqBytes(o.Key)
 			}
 			res.sig.scan(tree)
@@ -160,17 +300,23 @@ func runC03(c Case) (res *res03) {
 				fail("error", "unexpected error: op %d %s: %v", i, o.K, err)
 				return
 			}
-			rv, ok := cur()[string(o.Key)]
+			crossRead(onB, o.Key)
+			rv, ok := view(onB)[string(o.Key)]
 			switch {
 			case ok && v == nil:
-				fail(o.K+"-absent", "op %d (%s at overlay depth %d): key %x answered nil, the reference holds %x", i, o.K, len(stack), o.Key, rv)
+				fail(kind+"-absent", "op %d (%s %s): key %x answered nil, the reference holds %x", i, o.K, where, o.Key, rv)
 			case !ok && v != nil:
-				fail(o.K+"-present", "op %d (%s at overlay depth %d): key %x answered %x, the reference does not hold the key", i, o.K, len(stack), o.Key, v)
+				fail(kind+"-present", "op %d (%s %s): key %x answered %x, the reference does not hold the key", i, o.K, where, o.Key, v)
 			case ok && !bytes.Equal(v, rv):
-				fail(o.K+"-value", "op %d (%s at overlay depth %d): key %x answered %x, the reference holds %x", i, o.K, len(stack), o.Key, v, rv)
+				fail(kind+"-value", "op %d (%s %s): key %x answered %x, the reference holds %x", i, o.K, where, o.Key, v, rv)
 			}
-			if o.K == "remex" {
-				delete(cur(), string(o.Key))
+			if kind == "remex" {
+				if ok {
+					sideRem(onB, string(o.Key))
+				}
+				if sideB != nil {
+					lastWriter[string(o.Key)] = onB
+				}
 				if v != nil {
 					res.answered = true
 				}
@@ -179,7 +325,7 @@ func runC03(c Case) (res *res03) {
 			if v != nil {
 				hm = "hit"
 			}
-			res.stats.add(o.K, hm)
+			res.stats.add(kind, hm)
 			if v != nil {
 				v = nn(v)
 			}
@@ -187,7 +333,7 @@ func runC03(c Case) (res *res03) {
 		case "iter":
 			var got []kv
 			func() {
-				it := top().NewIterator(ctx)
+				it := target.NewIterator(ctx)
 				defer it.Close()
 				if o.Rewind {
 					it.Rewind()
@@ -212,10 +358,12 @@ func runC03(c Case) (res *res03) {
 			if o.Rewind {
 				seek = []byte{}
 			}
+			crossRead(onB, seek)
 			var want []kv
-			for _, k := range sortedKeys(cur()) {
+			vw := view(onB)
+			for _, k := range sortedKeys(vw) {
 				if bytes.Compare([]byte(k), seek) >= 0 && len(want) < o.N+1 {
-					want = append(want, kv{[]byte(k), cur()[k]})
+					want = append(want, kv{[]byte(k), vw[k]})
 				}
 			}
 			same := len(got) == len(want)
@@ -223,7 +371,7 @@ func runC03(c Case) (res *res03) {
 				same = bytes.Equal(got[j].k, want[j].k) && bytes.Equal(got[j].v, want[j].v)
 			}
 			if !same {
-				fail("iter", "op %d (iter seek %x rewind %v n %d at overlay depth %d): got %s, the reference says %s", i, seek, o.Rewind, o.N, len(stack), showKVs(got), showKVs(want))
+				fail("iter", "op %d (%s seek %x rewind %v n %d %s): got %s, the reference says %s", i, o.K, seek, o.Rewind, o.N, where, showKVs(got), showKVs(want))
 			}
 			if len(got) > 0 {
 				res.answered = true
@@ -243,7 +391,7 @@ func runC03(c Case) (res *res03) {
 			} else {
 				coqRes = "(RIter " + coqout.List(items) + ")"
 			}
-			coqOp = fmt.Sprintf("(SIter %s %d%%nat)", coqBytes(seek), o.N)
+			coqOp = fmt.Sprintf("SIter %s %d%%nat", coqBytes(seek), o.N)
 		case "tcommit":
 			res.sig.scan(tree)
 			_, h, err := tree.Commit(ctx, ns, version)
@@ -259,7 +407,7 @@ func runC03(c Case) (res *res03) {
 				}
 			}
 			version++
-			committed = copyMap(levels[0])
+			committed = copyMap(m0)
 			coqOp = "STreeCommit"
 		case "reopen":
 			if len(stack) > 0 || e.ndb == nil || committed == nil {
@@ -268,15 +416,15 @@ func runC03(c Case) (res *res03) {
 			tree.Close()
 			tree = mkvs.NewWithRoot(nil, e.ndb, lastRoot, treeOptions(c)...)
 			st.Tree = tree
-			levels[0] = copyMap(committed)
+			m0 = copyMap(committed)
 			res.reopens++
 			coqOp = "SReopen"
 		case "push":
 			if len(stack) >= maxOverlayDepth {
 				continue
 			}
-			stack = append(stack, mkvs.NewOverlay(top()))
-			levels = append(levels, copyMap(cur()))
+			stack = append(stack, mkvs.NewOverlay(target))
+			deltas = append(deltas, newDelta())
 			res.pushed = true
 			if len(stack) > res.maxDepth {
 				res.maxDepth = len(stack)
@@ -286,13 +434,17 @@ func runC03(c Case) (res *res03) {
 			if len(stack) == 0 {
 				continue
 			}
-			if _, err = stack[len(stack)-1].Commit(ctx); err != nil {
+			if _, err = target.(mkvs.OverlayTree).Commit(ctx); err != nil {
 				fail("error", "unexpected error: op %d overlay Commit: %v", i, err)
 				return
 			}
-			levels[len(levels)-2] = copyMap(cur())
-			if len(levels) == 2 {
-				res.sig.depth(levels[0])
+			commitSide(onB)
+			if sideB != nil {
+				if onB {
+					res.stats.add("fork", "b_ovcommit")
+				} else {
+					res.stats.add("fork", "a_ovcommit_while_forked")
+				}
 			}
 			res.sig.scan(tree)
 			coqOp = "SOvCommit"
@@ -302,7 +454,7 @@ func runC03(c Case) (res *res03) {
 			}
 			stack[len(stack)-1].Close()
 			stack = stack[:len(stack)-1]
-			levels = levels[:len(levels)-1]
+			deltas = deltas[:len(deltas)-1]
 			coqOp = "SOvDiscard"
 		case "ovcopy":
 			if len(stack) == 0 {
@@ -313,9 +465,34 @@ func runC03(c Case) (res *res03) {
 			old.Close()
 			stack[len(stack)-1] = cp
 			coqOp = "SOvCopy"
+		case "fork":
+			if len(stack) == 0 {
+				continue
+			}
+			sideB = stack[len(stack)-1].Copy(nil)
+			dB = deltas[len(deltas)-1].copy()
+			lastWriter = map[string]bool{}
+			res.forked = true
+			res.stats.add("fork", "episodes")
+		case "closeb":
+			if sideB == nil {
+				continue
+			}
+			sideB.Close()
+			sideB, dB = nil, nil
 		default:
 			fail("error", "unexpected error: unknown operation %q", o.K)
 			return
+		}
+		switch {
+		case kind == "fork":
+			coqOp = "FFork"
+		case kind == "closeb":
+			coqOp = "FCloseB"
+		case onB:
+			coqOp = "FB (" + coqOp + ")"
+		default:
+			coqOp = "FA (" + coqOp + ")"
 		}
 		res.eff = append(res.eff, o)
 		res.coqOps = append(res.coqOps, coqOp)
@@ -346,7 +523,25 @@ func genC03(r *prng.R) Case {
 		n = r.Range(40, 160)
 	}
 	depth, commits := 0, 0
-	for len(c.Ops) < n {
+	// fork episodes (an overlay and its copy both alive): in ~40% of the cases 1-2 of them,
+	// started once an overlay is on the stack
+	episodes := 0
+	if r.Chance(40) {
+		episodes = r.Range(1, 2)
+	}
+	written := [][]byte{} // keys inserted so far (likely present in the tree / lower levels)
+	for len(c.Ops) < n || (episodes > 0 && depth > 0) {
+		if episodes > 0 && depth > 0 && (len(c.Ops) >= n || r.Chance(12)) {
+			c.Ops = append(c.Ops, genForkEpisode(r, g, written)...)
+			episodes--
+			continue
+		}
+		if len(c.Ops) >= n {
+			break
+		}
+		if k := len(c.Ops); k > 0 && c.Ops[k-1].K == "ins" {
+			written = append(written, c.Ops[k-1].Key)
+		}
 		x := r.Intn(100)
 		switch {
 		case long && r.Chance(30):
@@ -406,6 +601,77 @@ func genC03(r *prng.R) Case {
 	return c
 }
 
+// genForkEpisode: "fork", 4-15 operations on the two sides (A = the top
+// overlay, B = its copy), "closeb". Biased to keys that exist below, to a
+// write or removal on one side followed by a read of the same key on the
+// other side, and to a commit of one side followed by reads on the other.
+func genForkEpisode(r *prng.R, g *keygen, written [][]byte) []Op {
+	ops := []Op{{K: "fork"}}
+	var recent [][]byte
+	pick := func() []byte {
+		switch x := r.Intn(100); {
+		case x < 40 && len(recent) > 0:
+			return recent[r.Intn(len(recent))]
+		case x < 80 && len(written) > 0:
+			return written[r.Intn(len(written))]
+		}
+		return g.key()
+	}
+	name := func(b bool, k string) string {
+		if b {
+			return "b_" + k
+		}
+		return k
+	}
+	read := func(b bool, k []byte) Op {
+		if r.Chance(50) {
+			return Op{K: name(b, "get"), Key: k}
+		}
+		if r.Chance(15) {
+			return Op{K: name(b, "iter"), Key: []byte{}, Rewind: true, N: r.Intn(7)}
+		}
+		return Op{K: name(b, "iter"), Key: k, N: r.Intn(4)}
+	}
+	write := func(b bool, k []byte) Op {
+		switch x := r.Intn(100); {
+		case x < 45:
+			return Op{K: name(b, "ins"), Key: k, Val: g.val()}
+		case x < 75:
+			return Op{K: name(b, "rem"), Key: k}
+		}
+		return Op{K: name(b, "remex"), Key: k}
+	}
+	n := r.Range(4, 15)
+	for len(ops)-1 < n {
+		b := r.Chance(50)
+		switch x := r.Intn(100); {
+		case x < 35:
+			// one side writes / removes, the other side reads the same key
+			k := pick()
+			recent = append(recent, k)
+			ops = append(ops, write(b, k), read(!b, k))
+			if r.Chance(30) {
+				ops = append(ops, read(b, k))
+			}
+		case x < 50:
+			// one side commits, the other side reads through its own delta
+			ops = append(ops, Op{K: name(b, "ovcommit")})
+			for j, m := 0, r.Range(1, 2); j < m; j++ {
+				ops = append(ops, read(!b, pick()))
+			}
+		case x < 55:
+			ops = append(ops, Op{K: "tcommit"})
+		case x < 80:
+			k := pick()
+			recent = append(recent, k)
+			ops = append(ops, write(b, k))
+		default:
+			ops = append(ops, read(b, pick()))
+		}
+	}
+	return append(ops, Op{K: "closeb"})
+}
+
 // shrink03 greedily drops operations while the oracle reports the same kind
 // of violation; operations that became illegal are dropped from the description.
 func shrink03(c Case, cut int, accept func(cand Case, r *res03) bool) Case {
@@ -432,10 +698,11 @@ func shrink03(c Case, cut int, accept func(cand Case, r *res03) bool) Case {
 }
 
 func mainC03(seed uint64, n int, out string, rp *replayInput) {
-	w := coqout.NewWriter(out, coqHeader, "run_c03", "c03_eqb", 25)
+	w := coqout.NewWriter(out, coqHeaderC03, "run_c03", "c03_eqb", 25)
 	sum := coqout.NewSummary("seeded histories (1-80 operations: insert, remove, remove-existing, get, seek/rewind iteration of up to n+1 items, tree commit, close+reopen at the committed root, overlay push/commit/discard/copy up to depth 4) on the real tree (with and without write log) over backends mem/badger/pathbadger with node capacities {0,1,2,3,8,16,32,5000} (long histories of 40-160 operations biased to new keys for about 20% of the cases) and value capacities {0,1,16,64,16M}; keys of 0-4 bytes over {00,01,80,ff} plus long keys, values of 0-8 bytes; " +
 		"compared: the answer of every operation; non-trivial = the case has at least one overlay push and at least one iteration or remove-existing with a non-empty answer; distinct = distinct operation-kind sequences among those")
 	sum.Extra["finding_rules"] = findingRules
+	sum.Extra["api_coverage"] = apiCoverage("c03")
 	defer func() {
 		w.Close()
 		sum.Write(out)
